@@ -584,3 +584,69 @@ def canonicalise_negations(tree: ast.AST) -> int:
     if k:
         ast.fix_missing_locations(tree)
     return k
+
+
+# ----------------------------------------------------------------------------------------------------------- filtered loops
+def _names_loaded(node: ast.AST) -> Dict[str, int]:
+    out: Dict[str, int] = {}
+    for x in ast.walk(node):
+        if isinstance(x, ast.Name) and isinstance(x.ctx, ast.Load):
+            out[x.id] = out.get(x.id, 0) + 1
+    return out
+
+
+def canonicalise_filtered_loops(tree: ast.AST) -> int:
+    """`xs = [e for e in X if c]` immediately followed by `for e2 in xs: body`, with `xs` used nowhere else in the function, is loaded as
+    `for e in X: if c: body` (the comprehension must map every element to itself; the loop variable takes the comprehension variable's place)."""
+    k = 0
+    for fn in ast.walk(tree):
+        if not isinstance(fn, (ast.FunctionDef, ast.AsyncFunctionDef)):
+            continue
+        loads = _names_loaded(fn)
+        stores: Dict[str, int] = {}
+        for x in ast.walk(fn):
+            if isinstance(x, ast.Name) and isinstance(x.ctx, ast.Store):
+                stores[x.id] = stores.get(x.id, 0) + 1
+
+        def fuse(stmts: List[ast.stmt]) -> List[ast.stmt]:
+            nonlocal k
+            out: List[ast.stmt] = []
+            i = 0
+            while i < len(stmts):
+                s = stmts[i]
+                nxt = stmts[i + 1] if i + 1 < len(stmts) else None
+                done = False
+                if isinstance(s, ast.Assign) and len(s.targets) == 1 and isinstance(s.targets[0], ast.Name) and isinstance(s.value, ast.ListComp) \
+                        and isinstance(nxt, ast.For) and isinstance(nxt.iter, ast.Name) and nxt.iter.id == s.targets[0].id and not nxt.orelse \
+                        and isinstance(nxt.target, ast.Name):
+                    xs = s.targets[0].id
+                    lc = s.value
+                    if len(lc.generators) == 1 and isinstance(lc.generators[0].target, ast.Name) and isinstance(lc.elt, ast.Name) \
+                            and lc.elt.id == lc.generators[0].target.id and lc.generators[0].ifs and loads.get(xs, 0) == 1 and stores.get(xs, 0) == 1:
+                        gen = lc.generators[0]
+                        var, loopvar = gen.target.id, nxt.target.id
+                        ren = _Renamer({}, {var: loopvar})
+                        tests = [ren.visit(copy.deepcopy(t)) for t in gen.ifs]
+                        test = tests[0] if len(tests) == 1 else ast.BoolOp(op=ast.And(), values=tests)
+                        inner = ast.copy_location(ast.If(test=test, body=fuse(nxt.body), orelse=[]), s)
+                        new = ast.copy_location(ast.For(target=nxt.target, iter=gen.iter, body=[inner], orelse=[], type_comment=None), nxt)
+                        out.append(new)
+                        k += 1
+                        i += 2
+                        done = True
+                if not done:
+                    for field in ("body", "orelse", "finalbody"):
+                        sub = getattr(s, field, None)
+                        if isinstance(sub, list) and sub and isinstance(sub[0], ast.stmt) and not isinstance(s, (ast.FunctionDef, ast.AsyncFunctionDef, ast.ClassDef)):
+                            setattr(s, field, fuse(sub))
+                    if isinstance(s, ast.Try):
+                        for h in s.handlers:
+                            h.body = fuse(h.body)
+                    out.append(s)
+                    i += 1
+            return out
+
+        fn.body = fuse(fn.body)
+    if k:
+        ast.fix_missing_locations(tree)
+    return k
